@@ -253,3 +253,79 @@ def expand(F, f, keep, depth=2):
                 splice(grec, b, dict(F.raw["fns"][hn], _name=hn), t["args"], False)
         cur = Fn(F, f.name, grec)
     return cur
+
+
+def merge_private_helpers(F):
+    """A9b: an extracted private helper is part of the one function that calls it.  Every eligible helper (small,
+    loop-free, closure-free, module-private, non-recursive, no trait impl) whose only caller is one named function is
+    spliced into that caller; the helper itself is then no longer a function of its own for the rules (it stays in
+    `F.merged`).  Helpers called from closures, from several functions or through indirect calls are left alone."""
+    from core import Fn
+    F.merged = {}
+    for _round in range(3):
+        changed = False
+        callers = {}
+        sites = {}
+        for g in F.fns.values():
+            for b, t in g.calls():
+                hn = t.get("rpath")
+                if hn in F.fns and t["res"] == "item":
+                    callers.setdefault(hn, set()).add(g.name)
+                    sites.setdefault((g.name, hn), []).append(b)
+                elif hn in F.fns:
+                    callers.setdefault(hn, set()).add("<indirect>")
+            # a function mentioned as a value (passed by path) is not merged
+            for b in g.live_blocks():
+                for st in g.blocks[b]["stmts"]:
+                    if st["k"] == "assign":
+                        for o in ([st["rv"].get("op")] + list(st["rv"].get("ops") or [])):
+                            if isinstance(o, dict) and o.get("fn") in F.fns:
+                                callers.setdefault(o["fn"], set()).add("<value>")
+                t = g.term(b)
+                if t["k"] == "call":
+                    for o in t["args"]:
+                        if isinstance(o, dict) and o.get("fn") in F.fns:
+                            callers.setdefault(o["fn"], set()).add("<value>")
+        for hn in sorted(callers):
+            cs = callers[hn]
+            if len(cs) != 1 or hn not in F.fns:
+                continue
+            gn = next(iter(cs))
+            if gn not in F.fns or gn == hn:
+                continue
+            g, h = F.fns[gn], F.fns[hn]
+            if g.kind == "Closure" or not eligible_helper(F, h):
+                continue
+            if len(g.live_blocks()) + len(h.live_blocks()) * len(sites[(gn, hn)]) > 160:
+                continue
+            if any(b in g.reach_after(b) for b in sites[(gn, hn)]):
+                continue        # called from inside a loop: the per-element function of that loop stays a unit
+            grec = F.raw["fns"][gn]
+            ok = True
+            for b in sites[(gn, hn)]:
+                t = grec["body"]["blocks"][b]["term"]
+                if t.get("k") != "call":
+                    continue
+                r = splice(grec, b, dict(F.raw["fns"][hn], _name=hn), t["args"], False)
+                if r is None:
+                    ok = False
+                    continue
+                L0, B0 = r
+                for nid in F._by_def.get(gn, []):
+                    nd = F.nodes[nid]
+                    calls = nd.get("calls") or {}
+                    c = calls.pop(str(b), None)
+                    if c and c.get("k") == "local":
+                        hnode = F.nodes[c["inst"]]
+                        for kb, cc in (hnode.get("calls") or {}).items():
+                            calls[str(int(kb) + B0)] = copy.deepcopy(cc)
+                    nd["calls"] = calls
+            if ok:
+                F.fns[gn] = Fn(F, gn, grec)
+                F.merged[hn] = gn
+                del F.fns[hn]
+                changed = True
+        if not changed:
+            break
+    F._effects = None
+    return F.merged
